@@ -29,9 +29,13 @@ ELLS = {"IAU76": lambda: IAU76, "WGS84": lambda: WGS84,
         "sphere": lambda: Ellipsoid(6378137.0, 0.0, 7.292e-5),
         "f005": lambda: Ellipsoid(6378137.0, 0.005, 7.292e-5),
         "f01": lambda: Ellipsoid(6378000.0, 0.01, 7.0e-5),
-        "norot": lambda: Ellipsoid(6378137.0, 1.0 / 298.257223563, 0.0)}
+        "norot": lambda: Ellipsoid(6378137.0, 1.0 / 298.257223563, 0.0),
+        # almost, but not quite, spherical bodies: a 'spherical' shortcut must be taken for f == 0 only
+        "f5e8": lambda: Ellipsoid(6378137.0, 5e-8, 7.292e-5), "f1e10": lambda: Ellipsoid(6378137.0, 1e-10, 7.292e-5),
+        "f1e5": lambda: Ellipsoid(6378137.0, 1e-5, 7.292e-5)}
 # the rotation rate handed to the constructor (not read back from the object)
-OMEGA_GIVEN = {"sphere": 7.292e-5, "f005": 7.292e-5, "f01": 7.0e-5, "norot": 0.0}
+OMEGA_GIVEN = {"sphere": 7.292e-5, "f005": 7.292e-5, "f01": 7.0e-5, "norot": 0.0, "f5e8": 7.292e-5, "f1e10": 7.292e-5,
+               "f1e5": 7.292e-5}
 LATS = [90, 89.999, 66.5, 45, 33.356, 1e-6]
 LATS = sorted(set(LATS + [-x for x in LATS] + [0]))
 HEIGHTS = [-500, 0, 1706, 9000, 0.5, -0.5, 1e-3, 0.999, -1.0]
@@ -141,7 +145,9 @@ def run_ellipsoid(block, ctx):
 POINTS = [(0, 0), (10, 0), (-170, 0), (170, 0), (180, 0), (90, 0), (0, 45), (0, -45), (0, 90), (0, -90),
           (77.065, 38.92), (-2.337, 48.836), (0, 1e-7), (1e-7, 0), (179.9, -0.1), (-179.95, 0.05),
           (77.065, -10.5), (-102.935, -38.92), (0, 1), (0, 89.999), (0, 0.001),
-          (10, 89.999999), (-170, 89.999999), (10, 89.99997), (-170, 89.99997), (10, -89.99999), (-170, -89.99999), (100, 89.9)]
+          (10, 89.999999), (-170, 89.999999), (10, 89.99997), (-170, 89.99997), (10, -89.99999), (-170, -89.99999), (100, 89.9),
+          (0, 37), (180, -37), (180, -36.999), (180, -37.00000001), (25, -60), (-155, 60), (-155, 59.5), (-90, 5), (90, -5),
+          (180, -45), (180, 45), (180, 1e-7), (180, -1e-7)]
 
 
 def simpson_meridian(e, p1, p2, n=2000):
@@ -186,10 +192,10 @@ def check_distance(case):
         if abs(d - exp) > 1e-4 * max(1.0, exp):
             out.append(("equator", "equatorial distance(%r,%r) = %r, a * dlon = %r" % (case["p1"], case["p2"], d, exp),
                         abs(d - exp) / max(1.0, exp)))
-    if abs(abs(l1 - l2) - 180.0) < 1e-12 and p1 * p2 > 0 and (abs(p1) < 90 or abs(p2) < 90):
-        # opposite meridians, same hemisphere: the geodesic runs over the pole - two meridian arcs
-        pole = math.copysign(90.0, p1)
-        s = simpson_meridian(e, p1, pole, n=400) + simpson_meridian(e, p2, pole, n=400)
+    if abs(abs(l1 - l2) - 180.0) < 1e-9 and not (p1 == 0 and p2 == 0) and (abs(p1) < 90 or abs(p2) < 90):
+        # opposite meridians (one meridian ellipse): the geodesic runs over the nearer pole - two meridian arcs;
+        # exactly antipodal points are half a meridian ellipse apart over either pole
+        s = min(simpson_meridian(e, p1, pole, n=400) + simpson_meridian(e, p2, pole, n=400) for pole in (90.0, -90.0))
         if s > 0 and abs(d - s) > 2e-4 * max(1.0, s) and abs(d - s) > 2e-4 * s + 1e-6:
             out.append(("over_pole", "distance(%r,%r) over the pole = %r, sum of the two meridian arcs %r"
                         % (case["p1"], case["p2"], d, s), abs(d - s) / max(1e-9, s)))
